@@ -501,6 +501,11 @@ class ExprMixin:
             if not self.ctx.branch(self.dhas(r, k), "dict-has-key"):
                 self.raise_("KeyError", self.anchor(node), [k])
             val = self.dget(r, k)
+            rs = z3.simplify(r)
+            if any(z3.simplify(Val.r(hd)).eq(rs) for hd in
+                   self.st.ghost.get("host_owned", []) + self.st.ghost.get("host_data_dicts", [])):
+                from .contract import ANY as _ANY
+                self.assume_shape(val, _ANY)      # values of a dictionary owned by the host program
             vs = self.st.ghost.get("dict_value_sorts", {}).get(str(z3.simplify(base)))
             if vs is not None:
                 self.assume_shape(val, vs)      # declared value type of this (agent-owned) dictionary
